@@ -160,7 +160,16 @@ pub fn batch(e: &Engine, cfg: &BatchCfg) -> BatchResult {
                         // interpreter run (memory-safety oracle): name the run so that an abort can be attributed
                         eprintln!("MIRI-RUN {}", idx);
                     }
-                    let r = run_search(e, cfg.tier, cfg.verif_seed, idx, false);
+                    let r = match std::panic::catch_unwind(std::panic::AssertUnwindSafe(|| run_search(e, cfg.tier, cfg.verif_seed, idx, false))) {
+                        Ok(r) => r,
+                        Err(_) => {
+                            // every library call is supposed to run under a guard that turns a panic into a verdict;
+                            // a panic that escapes is a hole in the harness (or a bug of its own) and must not be
+                            // mistaken for a hang of the run
+                            println!("HARNESS-ERROR: unguarded panic in engine={} seed={} run={} (see stderr)", e.name, cfg.verif_seed, idx);
+                            std::process::exit(2);
+                        }
+                    };
                     cur[w].0.store(0, Ordering::Relaxed);
                     l_done += 1;
                     l_stats.merge(&r.out.stats);
